@@ -214,6 +214,18 @@ def check(rep):
                             {'srv_frame_max': srv, 'body_len': len(body), 'kind': 'bytes-via-message', 'body_hex': body[:256].hex(),
                              'content_encoding': mprops.get('content_encoding')})
                         continue
+                elif kind == 'text' and codec and rng.random() < 0.3:
+                    # a Message object built with other properties, one of them read (the decoded view is cached), the codec
+                    # chosen afterwards through the property setter, then published: the text goes out in that codec
+                    from amqpstorm import Message
+                    via = 'message-setter'
+                    mprops = dict(props)
+                    mprops.pop('content_encoding', None)
+                    mprops.setdefault('content_type', 'text/plain')
+                    mo = Message(ch, body=body, properties=mprops, auto_decode=True)
+                    _ = mo.content_type
+                    mo.content_encoding = codec
+                    mo.publish(rk, ex, mandatory=rng.random() < 0.2)
                 else:
                     ch.basic.publish(body, rk, ex, properties=props, mandatory=rng.random() < 0.2)
                 rep.count('published_via', via)
